@@ -572,5 +572,70 @@ func checkC17(c *Ctx, w *World) {
 		// handing the slice to append as the SOURCE (a copy) is fine; returning it unchanged is not used here
 		c.check(len(bad) == 0, "C17.gme", "makeOpts does not write into the caller's option slice ("+prm.Name()+")", p.pos(mk.Pos()), "the caller's slice is only read (copied before the grpc-gcp options are appended)", "the caller's option slice is used as an append destination / stored / passed on: the grpc-gcp options (with this object's service config) land in the caller's backing array and can be overwritten through it: "+strings.Join(bad, "; "))
 	}
+	// the grpc-gcp options come LAST: gRPC applies dial options in order and the last default service config wins, so a
+	// caller-supplied one placed behind them would replace this object's configuration
+	{
+		var gcpAp, callerAp *ssa.Call
+		hasDSC := func(v ssa.Value) bool {
+			for _, o := range origins(v) {
+				sl, ok := stripConv(o.Val).(*ssa.Slice)
+				if !ok {
+					continue
+				}
+				al, ok := sl.X.(*ssa.Alloc)
+				if !ok {
+					continue
+				}
+				for _, r := range *al.Referrers() {
+					if ia, isIA := r.(*ssa.IndexAddr); isIA {
+						for _, st := range storesTo(ia) {
+							if _, isD := staticCallNamed(st.Val, "grpc.WithDefaultServiceConfig"); isD {
+								return true
+							}
+						}
+					}
+				}
+			}
+			return false
+		}
+		fromParam := func(v ssa.Value) bool {
+			for _, o := range origins(v) {
+				if prm, ok := o.Val.(*ssa.Parameter); ok && prm.Parent() == mk {
+					return true
+				}
+			}
+			return false
+		}
+		eachInstr(mk, func(in ssa.Instruction) {
+			ap, ok := in.(*ssa.Call)
+			if !ok || calleeOf(&ap.Call).Builtin != "append" || len(ap.Call.Args) < 2 {
+				return
+			}
+			if hasDSC(ap.Call.Args[1]) {
+				gcpAp = ap
+			}
+			if fromParam(ap.Call.Args[1]) {
+				callerAp = ap
+			}
+		})
+		okOrder := gcpAp != nil && callerAp != nil && reachesThroughAppends(gcpAp.Call.Args[0], callerAp) && !reachesThroughAppends(callerAp.Call.Args[0], gcpAp)
+		if okOrder {
+			for _, r := range returnsOf(mk) {
+				if nilErr, _ := allOrigins(r.Results[1], isConstNilOrigin); !nilErr {
+					continue
+				}
+				fromGcp := false
+				for _, o := range origins(r.Results[0]) {
+					if reachesThroughAppends(o.Val, gcpAp) {
+						fromGcp = true
+					}
+				}
+				if !fromGcp {
+					okOrder = false
+				}
+			}
+		}
+		c.check(okOrder, "C17.gme", "makeOpts puts the grpc-gcp options behind the caller's", p.pos(mk.Pos()), "result = append(copy of the caller's options, grpc-gcp options…): this object's default service config is the last one", "the caller's dial options are placed behind the grpc-gcp ones (or the result is not that concatenation): a caller-supplied default service config would replace this object's configuration")
+	}
 	c.check(okMk && nameOK, "C17.gme", "makeOpts serialises the caller's config", p.pos(mk.Pos()), "protojson.Marshal(options.GRPCgcpConfig) embedded in the default service config under the balancer's registered name", "the pools are not configured with the JSON rendering of the caller's config under the grpc_gcp balancer name")
 }
